@@ -62,6 +62,15 @@ func Prefixes(s string) []string {
 	return out
 }
 
+// Boundaries returns every rune boundary of s, including 0 and len(s).
+func Boundaries(s string) []int {
+	var out []int
+	for i := range s {
+		out = append(out, i)
+	}
+	return append(out, len(s))
+}
+
 // ValidUTF8 reports whether every class representative is valid UTF-8 (they must be: prefixes
 // are cut at rune boundaries).
 func ValidUTF8() bool {
